@@ -94,6 +94,16 @@ def wrapIfRSTError (e : GoError) : GoError :=
     (`wrapIfContextError(wrapIfRSTError(err))`, fix 7ec8af8) -/
 def duplexReadError (bodyErr : GoError) : GoError := wrapIfContextError (wrapIfRSTError bodyErr)
 
+/-- `duplexHTTPCall.Read` with the call's stored error taken into account (fix F7): a failing
+    body read that is not the end of the body reports the error the call already failed with —
+    e.g. the context error that the context watcher stored before closing the request pipe
+    under the transport, whatever the transport then says (closed pipe, stream reset, …). -/
+def duplexReadErrorStored (stored : Option GoError) (bodyErr : GoError) : GoError :=
+  if bodyErr.isEOF then duplexReadError bodyErr
+  else match stored with
+    | some s => s
+    | none => duplexReadError bodyErr
+
 /-- `duplexHTTPCall.makeRequest` on a failing `Do`: context, (h2c / gRPC hints), RST, else unavailable -/
 def doError (e : GoError) : GoError :=
   let e1 := wrapIfRSTError (wrapIfContextError e)
